@@ -42,6 +42,9 @@ CONSTANTS
   MaxStop,     \* writers that die between two fragments of a record
   MaxTrunc,    \* 0 or 1: the file is cut off once, afterwards it is only read
   TruncAll,    \* TRUE: cut at every byte; FALSE: only at structurally distinct bytes of every item
+  AllowEagerPad, \* TRUE: a writer MAY zero-fill the rest of a block in which no header fits right
+               \* after the record that ends there (raindb does it lazily, at the start of the next
+               \* append; both are legal designs and every property below holds for either)
   \* named deviations: each must make TLC produce a counterexample
   Bug_TrailerThresholdOffByOne,  \* writer pads only when fewer than Hdr-1 bytes remain
   Bug_NoOffsetRestoreOnReopen,   \* append-mode writer starts with block offset 0
@@ -115,6 +118,13 @@ AppendAll(f, w, id, left, j) ==
   LET r == EmitOne(f, w, id, left, j) IN
   IF r.final THEN [file |-> r.file, woff |-> r.woff]
   ELSE AppendAll(r.file, r.woff, id, r.left, j + 1)
+
+\* the trailer written at once: what PadTail adds to the result [file, woff] of AppendAll
+CanPadTail(w) == Block - w < Hdr /\ w # 0
+PadTail(r) ==
+  IF ~CanPadTail(r.woff) THEN r
+  ELSE [file |-> IF Block - r.woff > 0 THEN Append(r.file, PadItem(Block - r.woff)) ELSE r.file,
+        woff |-> 0]
 
 \* block offset of a writer that opens a file of n bytes in append mode
 ReopenOffset(n) == IF Bug_NoOffsetRestoreOnReopen THEN 0 ELSE n % Block
@@ -243,6 +253,13 @@ EmitFragment ==
   /\ Emit(cur.id, cur.len, cur.left, cur.frag)
   /\ UNCHANGED <<wr, appended, base, reopens, stops, truncated>>
 
+\* the optional eager trailer (see AllowEagerPad)
+EagerPad ==
+  /\ AllowEagerPad /\ wr = "open" /\ cur = NoAppend /\ CanPadTail(woff)
+  /\ LET r == PadTail([file |-> file, woff |-> woff]) IN
+     file' = r.file /\ woff' = r.woff /\ fileLen' = Total(r.file)
+  /\ UNCHANGED <<wr, cur, appended, base, reopens, stops, truncated>>
+
 CloseWriter ==
   /\ wr = "open" /\ cur = NoAppend
   /\ wr' = "closed"
@@ -269,7 +286,7 @@ Truncate(n) ==
 
 Next ==
   \/ \E n \in Lens : Append1(n)
-  \/ EmitFragment \/ CloseWriter \/ StopBetweenFragments \/ ReopenWriter
+  \/ EmitFragment \/ EagerPad \/ CloseWriter \/ StopBetweenFragments \/ ReopenWriter
   \/ \E n \in CutPoints : Truncate(n)
 
 Spec == Init /\ [][Next]_vars
